@@ -18,6 +18,7 @@ ASSUMPTIONS = [
 
 def run(ctx):
     ctx.run("C06.HIT-SIBLING", "R-SIBLING", mem.hit_sibling)
+    ctx.run("C06.CACHE-FORWARD", "R-FLOW", mem.cache_forward)
     ctx.run("C02.ONE-ID", "R-FLOW", mem.one_id)
     ctx.run("C02.KEY-FLOW", "R-FLOW", mem.key_flow)
     ctx.run("C12.CHECK-DOMINATES", "R-ORDER", mem.check_dominates)
